@@ -181,6 +181,19 @@ theorem anon_loop {cat : Cat} {st : St} : ∀ (ts : List StdTable) (rs : List Re
       obtain ⟨st3, e3, s3⟩ := anon_loop ts rs tl st2 (hs.trans hg2)
       exact ⟨st3, by simp [anonSources, hg1, e3, bind, Except.bind, pure, Except.pure, hden.tables], s3⟩
 
+theorem dictGet_mem' {κ ν : Type} [DecidableEq κ] : ∀ (d : List (κ × ν)) (k : κ) (v : ν), dictGet? d k = some v → (k, v) ∈ d
+  | [], _, _, h => by simp [dictGet?] at h
+  | p :: r, k, v, h => by
+    unfold dictGet? at h
+    rw [List.find?_cons] at h
+    by_cases e : p.1 = k
+    · simp [e] at h
+      have : p = (k, v) := by cases p; simp_all
+      simp [this]
+    · have e' : (p.1 == k) = false := by simpa using e
+      simp only [e'] at h
+      exact List.mem_cons_of_mem _ (dictGet_mem' r k v h)
+
 /-- the three outcomes of a step: the specified value with the stores untouched, the analysis error, or no claim -/
 def Agrees {α : Type} (st : St) (spec : Except FErr α) (model : Except Err (α × St)) : Prop :=
   match spec with
